@@ -14,6 +14,7 @@ open Pharmpy Pharmpy.C01
     (specflows ADVANn TRANSm)   → ((from to rate) …) | none      PREDPP table (spec)
     (basic ADVANn TRANSm)       → (sym …) | none                 basic PK parameters (spec)
     (entries)                   → ((ADVANn TRANSm) …)            entries of the spec table
+    (wiring ADVANn)             → (codeObs specObs codeDose specDose)
 
   prog  := (stmt …)
   stmt  := (= X e) | (if c X e) | (block ((c (item …)) …) (else item …)|(noelse)) | (opq n)
@@ -149,6 +150,9 @@ def handle (req : Sexp) : Sexp :=
     match basicParams a t with
     | some ps => Sexp.ofStrs ps
     | none => .atom "none"
+  | .list [.atom "wiring", .atom a] =>
+    let o : Option Nat → Sexp := fun x => match x with | some n => Sexp.ofNat n | none => .atom "none"
+    .list [o (codeObs a), o (specObs a), o (codeDose a), o (specDose a)]
   | .list [.atom "entries"] =>
     .list (specEntries.map (fun p => .list [.atom p.1, .atom p.2]))
   | _ => bad
